@@ -361,6 +361,24 @@ func ruleC37(c *Ctx) {
 		c.RequireGuardedBy("lockset", lp, "protocol.OrphanManage", f, "protocol.OrphanManage.mtx", omExempt)
 	}
 	c.RequireNoBlockingUnder("blocking", lp, "protocol.TxPool.mtx")
+	// request/reply: every message the processor takes from a channel is answered before the next one is taken
+	bp := c.Func(pProto, "(*Chain).blockProcessor")
+	if bp != nil {
+		ps := newPassSet()
+		for _, b := range bp.Blocks {
+			for _, in := range b.Instrs {
+				if _, ok := in.(*ssa.Send); ok {
+					ps.anchors = append(ps.anchors, b)
+					ps.passBlocks[b] = true
+				}
+			}
+		}
+		ok, d := false, "no reply send in the processor loop"
+		if len(ps.anchors) > 0 {
+			ok, d = ps.decide(c, c.ScopeFunc(bp))
+		}
+		c.Require("pairing", fname(bp)+": every request taken from a channel is replied to on every path (callers block on the reply)", ok && len(ps.anchors) >= 2, "%d reply send(s): %s", len(ps.anchors), d)
+	}
 	c.Floor("lockset", 20)
 	c.Floor("blocking", 3)
 	c.Floor("whocalls", 4)
